@@ -1,4 +1,4 @@
-\* exhaustive, property version (fee first, victims without dependants), small universe, capacity 2
+\* exhaustive with reorgs (depth 1, blocks of <= 1 tx), 3 steps
 SPECIFICATION MCSpec
 CONSTANTS
   Atoms <- AtomsSmall
@@ -17,7 +17,7 @@ CONSTANTS
   MaxBlocks = 2
   MaxSteps = 4
   MaxBlockTxs = 1
-  MaxReorgDepth = 0
+  MaxReorgDepth = 1
   SimProfile = "mixed"
 VIEW View
 INVARIANTS PoolJointlyValid StemJointlyValid PoolMatureUnlocked NoUnderpaid NoOverweight AdmitMatureUnlocked MineableAccepted
